@@ -293,8 +293,15 @@ U("ctx.recv_events", src="units/ctx_unit.c", harness="h_recv_events", enforce="r
   native=False, timeout=300, min_obligations=40, must_have=["invariant after step"])
 PROPS["C03"] = {"level": "proof", "level_text": "TODO", "level_note": "TODO", "not_decided": [], "explanation": "TODO"}
 PSC = ABS + ["contracts/cb.contracts.h", "contracts/ps.contracts.h"]
+U("ps.send_two_real", src="units/ps_real.c", harness="h_send_two_real", plain=True, logctx="CORE",
+  props=["C02", "C04"], contract_files=[], native=True, timeout=300, min_obligations=20, unwind=8)
 U("ps.tell_if_real", src="units/ps_real.c", harness="h_tell_if_real", plain=True, logctx="CORE",
   props=["C02", "C08", "C04"], contract_files=[], native=True, timeout=300, min_obligations=20, unwind=8)
 PROPS["C02"] = {"level": "proof", "level_text": "TODO", "level_note": "TODO", "not_decided": [], "explanation": "TODO"}
 PROPS["C08"] = {"level": "proof", "level_text": "TODO", "level_note": "TODO", "not_decided": [], "explanation": "TODO"}
 PROPS["C04"] = {"level": "proof", "level_text": "TODO", "level_note": "TODO", "not_decided": [], "explanation": "TODO"}
+U("ps.flush", src="units/ps_unit.c", harness="h_flush", enforce="flush_pubsub_msgs", loop_contracts=True, defines=["V_FLUSH_UNIT"],
+  replace=["m_queue_new", "v_read", "m_mod_is", "new_evt", "m_queue_enqueue", "m_mem_unref", "call_pubsub_cb", "fs_ctx_stopped"], logctx="CORE",
+  props=["C02", "C08", "C04"], contract_files=PSC, native=False, timeout=300, min_obligations=30, must_have=["invariant after step"])
+U("evts.new_evt", src="units/evts_unit.c", harness="h_new_evt", enforce="new_evt", replace=["m_mem_new", "m_mem_ref"], logctx="CORE",
+  props=["C02", "C04"], contract_files=EVTS, native=False, timeout=300, min_obligations=20)
